@@ -359,6 +359,15 @@ func freePort() (int, error) {
 	return 0, fmt.Errorf("no free port: %v", err)
 }
 
+// warm starts one instance that uses both log files of the runner. httpserver keeps one
+// lumberjack writer per log file in an unsynchronised package-level map (roller.go:GetLogWriter);
+// a casket process starts its instances one after the other, this harness starts 12 at a time:
+// the entries are created here, sequentially, so that the concurrent starts only read the map.
+func (rn *runner) warm() error {
+	_, _, err := rn.run([]string{"root", "lg1", "err"}, nil, []int{})
+	return err
+}
+
 var portRe = regexp.MustCompile(`127\.0\.0\.1:\d+`)
 
 // run loads the block written in the given order and sends the requests; idx selects requests
@@ -1087,8 +1096,18 @@ func TestC09(t *testing.T) {
 	res.AddExtra("blocks_from_tlc", len(blocks))
 	res.AddExtra("blocks_replayed", len(todo))
 
+	workers := 12
+	runners := make([]*runner, 0, workers+1)
+	for w := 0; w <= workers; w++ {
+		rn := newRunner(t, fx, w)
+		if err := rn.warm(); err != nil {
+			res.Infra = err.Error()
+			return
+		}
+		runners = append(runners, rn)
+	}
 	if !hx.SelfTest() {
-		c.findDrift(newRunner(t, fx, 99), blocks)
+		c.findDrift(runners[workers], blocks)
 		res.AddExtra("lines_with_stale_model", len(c.drift))
 	}
 
@@ -1099,10 +1118,9 @@ func TestC09(t *testing.T) {
 	}
 	jobs := make(chan job)
 	var wg sync.WaitGroup
-	workers := 12
 	for w := 0; w < workers; w++ {
 		wg.Add(1)
-		rn := newRunner(t, fx, w)
+		rn := runners[w]
 		go func() {
 			defer wg.Done()
 			for j := range jobs {
